@@ -3,8 +3,8 @@ import JadeModel.Proofs.SystemLive1Defs
 import JadeModel.Proofs.SystemLiveStep1
 import JadeModel.Proofs.SystemLiveStep2
 
-/-!
-Fault-free executions, part 2: what the role holder knows (consequences of "no orphaned marker"), rows
+set_option linter.unusedSimpArgs false
+
+/-! Fault-free executions, part 2: what the role holder knows (consequences of "no orphaned marker"), rows
 behind every DONE state, and the accounting of node runners: a batch that ended has a row for each job.
-Definitions: `SystemLive1Defs`; steps: `SystemLiveStep1`, `SystemLiveStep2`.
--/
+ -/
